@@ -49,6 +49,11 @@ func (s *c10) Start(r *kit.Rng, cfg map[string]int64) {
 	for i, n := 0, r.Range(3, 6); i < n; i++ {
 		s.pool = append(s.pool, r.Bytes(r.Range(1, 33)))
 	}
+	if r.Chance(1, 8) {
+		// an element longer than the 520-byte push limit of standard scripts
+		// (a large redeem script someone watches)
+		s.pool = append(s.pool, r.Bytes(r.Range(519, 600)))
+	}
 	for i := 0; i < 3; i++ {
 		s.hashes = append(s.hashes, r.Bytes(32))
 	}
@@ -145,6 +150,9 @@ func (s *c10) genBlock(r *kit.Rng) []*wire.MsgTx {
 		nout := r.Range(0, 3)
 		if chainy && nout == 0 {
 			nout = 1
+		}
+		if r.Chance(1, 40) {
+			nout = r.Range(250, 300) // batch payout: output indices beyond one byte
 		}
 		var outs [][]byte
 		for k := 0; k < nout; k++ {
